@@ -178,7 +178,10 @@ def build_field(spec: dict, shape, dtype=np.float64, margin: int = 0) -> np.ndar
         sl = tuple(slice(margin, n - margin) if n - 2 * margin > 0 else slice(0, 0) for n in shape)
         mask[sl] = True
         out = np.where(mask, out, 0.0)
-    return out.astype(dtype)
+    out = out.astype(dtype)
+    # subnormals are outside the input domain of the -Ofast (flush-to-zero) kernels
+    out[np.abs(out) < np.finfo(dtype).tiny] = 0
+    return out
 
 
 def build_vector_field(specs, shape, dtype=np.float64, margin: int = 0) -> np.ndarray:
